@@ -126,9 +126,6 @@ Section Mono.
     apply bindo_mle; [apply Hev|]. intros; apply mle_refl.
   Qed.
 
-  Lemma index_assign_mle : forall w i v, index_assign w i v = index_assign w i v.
-  Proof. reflexivity. Qed.
-
   Lemma assign_mle : forall t lhs right, mle (assign e1 t lhs right) (assign e2 t lhs right).
   Proof.
     intros t lhs right; unfold assign.
@@ -357,14 +354,12 @@ Theorem int_ops_wrap : forall a b : Z,
   (0 <= b < 64 -> int_shr a b = Some (wrap64 (uimage a / 2 ^ b))).
 Proof.
   intros a b; unfold int_add, int_sub, int_mul, int_neg, int_div, int_mod, int_shl, int_shr.
-  repeat split; try reflexivity; intros H.
+  repeat match goal with |- _ /\ _ => split end; try reflexivity; intros H.
   - destruct (Z.eqb_spec b 0); [contradiction|reflexivity].
   - destruct (Z.eqb_spec b 0); [contradiction|reflexivity].
   - destruct (Z.ltb_spec b 0); [lia|]. destruct (Z.leb_spec 64 b); [lia|reflexivity].
-  - destruct (Z.ltb_spec b 0); [lia|]. destruct (Z.leb_spec 64 b); [reflexivity|lia].
-  - destruct (Z.ltb_spec b 0); [lia|]. destruct (Z.leb_spec 64 b); [reflexivity|lia].
-  - destruct (Z.ltb_spec b 0); [reflexivity|lia].
-  - destruct (Z.ltb_spec b 0); [reflexivity|lia].
+  - destruct (Z.ltb_spec b 0); [lia|]. destruct (Z.leb_spec 64 b); [split; reflexivity|lia].
+  - destruct (Z.ltb_spec b 0); [split; reflexivity|lia].
   - destruct (Z.ltb_spec b 0); [lia|]. destruct (Z.leb_spec 64 b); [lia|reflexivity].
 Qed.
 
@@ -416,6 +411,14 @@ Qed.
 
 (* x[l:r] with 0 <= l <= r <= len is firstn (r-l) (skipn l x); negative bounds count from the end;
    an inverted range is an error; bounds outside are clamped: at every length (no size thresholds) *)
+Ltac no_if t := lazymatch t with context[if _ then _ else _] => fail | _ => idtac end.
+Ltac zcases :=
+  repeat (cbv iota;
+          match goal with
+          | |- context[Z.ltb ?a ?b] => no_if a; no_if b; destruct (Z.ltb_spec a b); try lia
+          end);
+  cbv iota.
+
 Theorem slice_spec : forall (A : Type) (xs : list A) (l r : Z),
   let len := Z.of_nat (length xs) in
   (0 <= l <= r /\ r <= len ->
@@ -425,18 +428,29 @@ Theorem slice_spec : forall (A : Type) (xs : list A) (l r : Z),
                      /\ seq_slice xs l None = seq_slice xs (len + l) None) /\
   (- len <= r < 0 -> 0 <= l -> seq_slice xs l (Some r) = seq_slice xs l (Some (len + r))) /\
   (0 <= l -> 0 <= r -> r < l -> seq_slice xs l (Some r) = None) /\
-  (0 <= l <= r -> len < r -> seq_slice xs l (Some r) = seq_slice xs l None).
+  (0 <= l <= r -> l <= len -> len < r -> seq_slice xs l (Some r) = seq_slice xs l None).
 Proof.
   intros A xs l r len; unfold seq_slice, slice_bounds, clamp; fold len.
-  repeat split; intros.
-  - repeat match goal with |- context[Z.ltb ?a ?b] => destruct (Z.ltb_spec a b); try lia end. reflexivity.
-  - repeat match goal with |- context[Z.ltb ?a ?b] => destruct (Z.ltb_spec a b); try lia end.
-    rewrite firstn_all2; [reflexivity|]. rewrite skipn_length. lia.
-  - repeat match goal with |- context[Z.ltb ?a ?b] => destruct (Z.ltb_spec a b); try lia end; reflexivity.
-  - repeat match goal with |- context[Z.ltb ?a ?b] => destruct (Z.ltb_spec a b); try lia end; reflexivity.
-  - repeat match goal with |- context[Z.ltb ?a ?b] => destruct (Z.ltb_spec a b); try lia end; reflexivity.
-  - repeat match goal with |- context[Z.ltb ?a ?b] => destruct (Z.ltb_spec a b); try lia end; reflexivity.
-  - repeat match goal with |- context[Z.ltb ?a ?b] => destruct (Z.ltb_spec a b); try lia end; reflexivity.
+  repeat match goal with |- _ /\ _ => split end; intros.
+  - zcases. reflexivity.
+  - zcases. rewrite firstn_all2; [reflexivity|]. rewrite skipn_length. lia.
+  - split; zcases; reflexivity.
+  - zcases; reflexivity.
+  - zcases; reflexivity.
+  - zcases; reflexivity.
+Qed.
+
+Lemma nth_firstn_lt : forall (A : Type) (n k : nat) (l : list A),
+  (k < n)%nat -> nth_error (firstn n l) k = nth_error l k.
+Proof.
+  induction n; intros k l H; [lia|]. destruct l; [destruct k; reflexivity|].
+  destruct k; simpl; [reflexivity|]. apply IHn; lia.
+Qed.
+
+Lemma nth_skipn_add : forall (A : Type) (n k : nat) (l : list A),
+  nth_error (skipn n l) k = nth_error l (n + k).
+Proof.
+  induction n; intros k l; [reflexivity|]. destruct l; simpl; [destruct k; reflexivity|]. apply IHn.
 Qed.
 
 (* the element at a valid index of a slice is the element of the original sequence *)
@@ -446,7 +460,7 @@ Lemma slice_nth : forall (A : Type) (xs : list A) (l r : Z) (ys : list A) (k : n
 Proof.
   intros A xs l r ys k H1 H2 H3 H4.
   destruct (slice_spec A xs l r) as [Hs _]. rewrite Hs in H3 by lia. inversion H3; subst.
-  rewrite nth_error_firstn by assumption. apply nth_error_skipn.
+  rewrite nth_firstn_lt by assumption. apply nth_skipn_add.
 Qed.
 
 (* ================================================================== short circuit *)
